@@ -315,7 +315,7 @@ def rule_s3(repo, col, classes):
 def _string_literals_tested(func):
     out = []
     for n in walk_no_nested(func.node):
-        if isinstance(n, ast.Compare):
+        if isinstance(n, ast.Compare) and all(isinstance(op, (ast.Eq, ast.NotEq)) for op in n.ops):
             for o in [n.left] + list(n.comparators):
                 if isinstance(o, ast.Constant) and isinstance(o.value, str):
                     out.append((n, o.value))
@@ -506,6 +506,116 @@ def _logsumexp_shape(e):
     return None
 
 
+def _format_parts(e, params):
+    """`"fmt" % (args)` / `"fmt" % arg` -> (fmt, [arg nodes]) ; a bare parameter -> ('%s', [node]) ; else None"""
+    if isinstance(e, ast.Name) and e.id in params:
+        return "%s", [e]
+    if isinstance(e, ast.BinOp) and isinstance(e.op, ast.Mod) and isinstance(e.left, ast.Constant) and isinstance(e.left.value, str):
+        args = list(e.right.elts) if isinstance(e.right, ast.Tuple) else [e.right]
+        return e.left.value, args
+    return None
+
+
+def _outer_class(fmt):
+    """precedence class of the text produced by a format string whose %s are atoms"""
+    txt = fmt.replace("%s", "A").strip()
+    if txt.startswith("("):
+        depth = 0
+        for i, ch in enumerate(txt):
+            if ch == "(":
+                depth += 1
+            elif ch == ")":
+                depth -= 1
+                if depth == 0:
+                    if i == len(txt) - 1:
+                        return "atom"
+                    break
+    try:
+        e = ast.parse(txt, mode="eval").body
+    except SyntaxError:
+        raise AnalysisError("SemiringSymbolic: format %r is not an expression" % fmt)
+    if isinstance(e, ast.BinOp):
+        return {ast.Add: "sum", ast.Sub: "sum", ast.Mult: "product", ast.Div: "quotient"}.get(type(e.op), "other")
+    return "atom"
+
+
+_ACCEPT = {
+    ("Mult", "left"): {"atom", "product", "quotient"},
+    ("Mult", "right"): {"atom", "product", "quotient"},
+    ("Div", "left"): {"atom", "product", "quotient"},
+    ("Div", "right"): {"atom"},
+    ("Sub", "left"): {"atom", "product", "quotient", "sum"},
+    ("Sub", "right"): {"atom", "product", "quotient"},
+    ("Add", "left"): {"atom", "product", "quotient", "sum"},
+    ("Add", "right"): {"atom", "product", "quotient", "sum"},
+}
+
+
+def rule_s6(repo, col):
+    """S4b operands are embedded verbatim; S6 precedence closure of the symbolic expression texts"""
+    S = repo.cls("problog.evaluator", "SemiringSymbolic")
+    m = S.module
+    ops = ("plus", "times", "negate", "normalize")
+    classes = {"atom": "value()/literals"}
+    sites = []
+    for name in ops:
+        f = S.methods.get(name)
+        if f is None:
+            raise AnalysisError("SemiringSymbolic.%s missing" % name)
+        params = f.params[1:]
+        for r in returns(f.node):
+            if r.value is None or (isinstance(r.value, ast.Constant)):
+                continue
+            fp = _format_parts(r.value, params)
+            if fp is None:
+                raise AnalysisError("SemiringSymbolic.%s: return shape not understood: %s" % (name, norm(r)))
+            fmt, args = fp
+            if fmt.count("%s") != len(args):
+                raise AnalysisError("SemiringSymbolic.%s: format/argument count mismatch in %s" % (name, norm(r)))
+            verbatim = all(isinstance(a, ast.Name) and a.id in params for a in args)
+            col.decide("S6", m, r, verbatim, "%s embeds its operands verbatim" % name,
+                       "SemiringSymbolic.%s alters an operand's text (%s) before embedding it in the result: the expression no longer denotes %s of the operand values"
+                       % (name, ", ".join(norm(a) for a in args if not (isinstance(a, ast.Name) and a.id in params)), name))
+            if fmt == "%s":
+                continue
+            # each binary operation must mention all its operands
+            used = set(a.id for a in args if isinstance(a, ast.Name))
+            col.decide("S6", m, r, used == set(params), "%s mentions every operand" % name,
+                       "SemiringSymbolic.%s builds %r from %s but its operands are %s" % (name, fmt, sorted(used), params), construct="%s operands of %s" % (name, norm(r)))
+            classes[_outer_class(fmt)] = "%s() -> %r" % (name, fmt)
+            # operand positions
+            txt = fmt
+            for i in range(len(args)):
+                k = txt.index("%s")
+                wrapped = k > 0 and txt[k - 1] == "(" and txt[k + 2:k + 3] == ")"
+                # a placeholder with its own parentheses is in atom context: accepts every class
+                txt = txt.replace("%s", ("P%d" if wrapped else "A%d") % i, 1)
+            try:
+                tree = ast.parse(txt.strip(), mode="eval").body
+            except SyntaxError:
+                raise AnalysisError("SemiringSymbolic.%s: format %r is not an expression" % (name, fmt))
+            par = {}
+            for nd in ast.walk(tree):
+                for ch in ast.iter_child_nodes(nd):
+                    par[ch] = nd
+            for nd in ast.walk(tree):
+                if isinstance(nd, ast.Name) and nd.id.startswith("A"):
+                    p_ = par.get(nd)
+                    if isinstance(p_, ast.BinOp):
+                        side = "left" if p_.left is nd else "right"
+                        sites.append((name, r, fmt, int(nd.id[1:]), type(p_.op).__name__, side))
+    for name, r, fmt, argi, opn, side in sites:
+        acc = _ACCEPT.get((opn, side))
+        if acc is None:
+            raise AnalysisError("SemiringSymbolic.%s: operator %s not in the precedence table" % (name, opn))
+        bad = sorted(c for c in classes if c not in acc)
+        col.decide("S6", m, r, not bad, "%s: operand %d of %r accepts every expression class the semiring produces" % (name, argi, fmt),
+                   "SemiringSymbolic.%s embeds operand %d as the %s operand of %s in %r without parentheses, but the semiring produces unparenthesised %s expressions (%s): "
+                   "the text then groups differently from the value, e.g. normalize(a, times(x, y)) prints 'a / x*y', which evaluates to (a/x)*y"
+                   % (name, argi, side, {"Div": "/", "Mult": "*", "Sub": "-", "Add": "+"}[opn], fmt, "/".join(bad), "; ".join(classes[c] for c in bad)),
+                   construct="%s: operand %d of %r" % (name, argi, fmt))
+
+
 def run(repo, col):
     col.rule("S1", "no comparison against a bound method object in semiring classes")
     col.rule("S2", "Semiring base defaults: is_one/is_zero compare with one()/zero() values; normalize(a, one()) returns a, else raises OperationNotSupported")
@@ -524,3 +634,5 @@ def run(repo, col):
         raise AnalysisError("S3 found %d override obligations (floor 10)" % n3)
     rule_s4(repo, col)
     rule_s5(repo, col)
+    col.rule("S6", "symbolic expression texts embed operands verbatim and are closed under operator precedence")
+    rule_s6(repo, col)
